@@ -205,6 +205,18 @@ def compare(src, dst, refattrs, report):
                         same_name = [norm(h) for h in dl if dict((tuple(a), v) for a, v in h[2]).get((STY, 'name')) == nm and tuple(h[1]) == tuple(st[1])]
                         report('referenced-automatic-style-differs' if same_name else 'referenced-automatic-style-lost', folder + part + '#' + str(nm),
                                first_diff(norm(st), same_name[0]) if same_name else None, 'the definition as in the source', {'aspect': 'automatic-style'})
+            # one name, one definition: a saved part that defines a name twice (same kind of style, same family) leaves every reference
+            # to it ambiguous, whatever the source meant
+            def twice(autos):
+                seen = {}
+                for x in autos:
+                    if x[0] != 'E': continue
+                    a = dict((tuple(k), v) for k, v in x[2])
+                    if (STY, 'name') in a: seen.setdefault((tuple(x[1]), a.get((STY, 'family')), a[(STY, 'name')]), []).append(norm(x))
+                return sorted(k for k, v in seen.items() if len(v) > 1 and any(y != v[0] for y in v))
+            amb = [k for k in twice(dautos) if k not in twice(sautos)]
+            if amb:
+                report('automatic-style-name-ambiguous', folder + part, [(k[0][1], k[1], k[2]) for k in amb], 'one definition per name', {'aspect': 'automatic-style', 'kinds': sorted(set(k[0][1] for k in amb))})
             # font declarations
             sf = section(s, 'font-face-decls')
             if sf is not None:
